@@ -25,7 +25,9 @@ var deniedPrefixes = []string{
 	"github.com/chrislusf/seaweedfs/weed/stats",
 	"expvar",
 	"github.com/spf13/viper",
-	"github.com/aws/",
+	"github.com/aws/aws-sdk-go/aws/endpoints",
+	"github.com/aws/aws-sdk-go/aws/session",
+	"github.com/aws/aws-sdk-go/aws/request",
 	"net/http/pprof",
 	"log",
 }
@@ -76,6 +78,9 @@ type boundBuiltin struct {
 func (o *builtinObj) call(in *Interp, fr *frame, method string, args []Value) Value {
 	if o.kind == "noop" {
 		return nil
+	}
+	if o.kind == "rtype" && method == "Comparable" {
+		return in.tb.tru
 	}
 	if o.kind == "fileinfo" {
 		return fileInfoCall(in, o, method)
